@@ -39,6 +39,15 @@ pub fn verify_stark_proof<
     verifier_circuit_fri_params: Option<FriParams>,
 ) -> Result<()> {
     ensure!(proof_with_pis.public_inputs.len() == S::PUBLIC_INPUTS);
+    // Validate the shape before anything (including challenge derivation) indexes into the proof.
+    validate_proof_shape(
+        &stark,
+        &proof_with_pis.proof,
+        &proof_with_pis.public_inputs,
+        config,
+        0,
+        0,
+    )?;
     let mut challenger = Challenger::<F, C::Hasher>::new();
 
     let challenges = proof_with_pis.get_challenges(
@@ -230,6 +239,17 @@ where
     C: GenericConfig<D, F = F>,
     S: Stark<F, D>,
 {
+    // The trace length is recovered from the first Merkle path of the first query round: make sure
+    // it exists and yields a supported domain size before `recover_degree_bits` indexes into it.
+    let query_round_proofs = &proof.opening_proof.query_round_proofs;
+    ensure!(!query_round_proofs.is_empty(), "Missing FRI query rounds.");
+    let evals_proofs = &query_round_proofs[0].initial_trees_proof.evals_proofs;
+    ensure!(!evals_proofs.is_empty(), "Missing initial oracle openings.");
+    let lde_bits = config.fri_config.cap_height + evals_proofs[0].1.siblings.len();
+    ensure!(
+        lde_bits >= config.fri_config.rate_bits && lde_bits <= F::TWO_ADICITY,
+        "Unsupported trace length."
+    );
     let degree_bits = proof.recover_degree_bits(config);
 
     let StarkProof {
